@@ -426,3 +426,27 @@ func FirstDiff(a, b []string) string {
 	}
 	return ""
 }
+
+// AppendAll appends a few bytes to every slice-valued leaf of a decoded message (and to the 4-byte form of every IP address),
+// discarding the results - what a caller does who builds something out of a decoded address (`append(reply.Address.To4(),
+// port...)`). It only ever writes into spare capacity, which a value the caller owns may have but must not share with a
+// neighbour. Returns how many appends were made.
+func AppendAll(v reflect.Value) int {
+	n := 0
+	junk := []byte{0xee, 0xed, 0xec, 0xeb, 0xea, 0xe9, 0xe8, 0xe7, 0xe6, 0xe5, 0xe4, 0xe3, 0xe2, 0xe1, 0xe0, 0xdf}
+	for _, f := range Leaves(v) {
+		if f.Kind() != reflect.Slice || f.Type().Elem().Kind() != reflect.Uint8 || f.IsNil() {
+			continue
+		}
+		b := f.Bytes()
+		_ = append(b, junk...)
+		n++
+		if ip, ok := f.Interface().(net.IP); ok {
+			if v4 := ip.To4(); v4 != nil {
+				_ = append(v4, junk[:6]...)
+				n++
+			}
+		}
+	}
+	return n
+}
